@@ -1,4 +1,66 @@
+/* exec_ext.c - further command families of the executor: CAN builders (C06), ...
+ * Like exec.c it has no expected values: it runs what it is told and prints what it saw. */
 #include <stdio.h>
+#include <stdlib.h>
+#include <string.h>
 #include "exec_ext.h"
-int exec_ext(char** tok, int nt) { (void)tok; (void)nt; return 0; }
+#include "avtp/acf/Can.h"
+#include "avtp/acf/CanBrief.h"
+
+static uint64_t be64x(const uint8_t* p) { uint64_t v = 0; for (int i = 0; i < 8; i++) v = (v << 8) | p[i]; return v; }
+
+/* ------------------------------------------------------------------ CAN builders
+ * CB <kind> <op> <id16> <fd> <len> <base> <place> <off> <arenahex> <payloadhex>
+ *   kind: full | brief     op: create | copy | idfields | finalize | paylen            */
+typedef struct { const char* kind; const char* op; uint32_t id; int fd; uint16_t len; uint8_t* hdr; uint8_t* payload; uint64_t ret; } CanCtx;
+static void can_fn(void* p)
+{
+    CanCtx* c = p;
+    int full = !strcmp(c->kind, "full");
+    Avtp_Can_t* f = (Avtp_Can_t*)c->hdr; Avtp_CanBrief_t* b = (Avtp_CanBrief_t*)c->hdr;
+    Avtp_CanVariant_t var = c->fd ? AVTP_CAN_FD : AVTP_CAN_CLASSIC;
+    c->ret = 0;
+    if (!strcmp(c->op, "create")) {
+        if (full) Avtp_Can_CreateAcfMessage(f, c->id, c->payload, c->len, var);
+        else c->ret = (uint64_t)(int64_t)Avtp_CanBrief_SetPayload(b, c->id, c->payload, c->len, var);
+    } else if (!strcmp(c->op, "copy")) {
+        if (full) Avtp_Can_SetPayload(f, c->payload, c->len);
+        else memcpy(b->payload, c->payload, c->len);   /* the brief API has no copy-only step */
+    } else if (!strcmp(c->op, "idfields")) {
+        /* what a caller composing the message by hand does */
+        if (full) { Avtp_Can_SetEff(f, c->id > 0x7ff); Avtp_Can_SetCanIdentifier(f, c->id); Avtp_Can_SetFdf(f, (uint8_t)c->fd); }
+        else { Avtp_CanBrief_SetEff(b, c->id > 0x7ff); Avtp_CanBrief_SetCanIdentifier(b, c->id); Avtp_CanBrief_SetFdf(b, (uint8_t)c->fd); }
+    } else if (!strcmp(c->op, "finalize")) {
+        if (full) Avtp_Can_Finalize(f, c->len);
+        else c->ret = (uint64_t)(int64_t)Avtp_CanBrief_Finalize(b, c->len);
+    } else if (!strcmp(c->op, "paylen")) {
+        c->ret = Avtp_Can_GetCanPayloadLength(f);
+    }
+}
+
+static int cmd_can(char** tok, int nt)
+{
+    static uint8_t arena_b[EXT_MAXARENA], pay_b[EXT_MAXARENA], idb[8];
+    if (nt < 11) return 0;
+    CanCtx c; memset(&c, 0, sizeof c);
+    c.kind = tok[1]; c.op = tok[2];
+    unhex(tok[3], idb, 8); c.id = (uint32_t)be64x(idb);
+    c.fd = atoi(tok[4]); c.len = (uint16_t)atoi(tok[5]);
+    long base = atol(tok[6]); char place = tok[7][0]; long off = atol(tok[8]);
+    size_t alen = unhex(tok[9], arena_b, sizeof arena_b);
+    size_t plen = unhex(tok[10], pay_b, sizeof pay_b);
+    uint8_t* arena = ext_place(place, off, arena_b, alen);
+    c.hdr = arena + base;
+    c.payload = ext_source(pay_b, plen);
+    char status[64];
+    ext_call(can_fn, &c, status, sizeof status, arena);
+    ext_result(status, c.ret, 0, 0, arena, alen);
+    return 1;
+}
+
+int exec_ext(char** tok, int nt)
+{
+    if (!strcmp(tok[0], "CB")) return cmd_can(tok, nt);
+    return 0;
+}
 void describe_ext(void) { }
